@@ -212,6 +212,91 @@ fn pair_wincon(st: &WinconBytes, p: &[u8]) -> Result<(), String> {
     Ok(())
 }
 
+/// One input with very many small items, handed over whole and in chunks of `size` bytes, through every
+/// incremental interface: the concatenated results must agree (C03's statement, for counts of runs per call
+/// instead of lengths).
+fn many_items_case(unit: &[u8], n: usize, size: usize) -> Result<(), String> {
+    let whole: Vec<u8> = unit.iter().cycle().take(unit.len() * n).copied().collect();
+    let chunks: Vec<&[u8]> = whole.chunks(size).collect();
+    let one: Vec<u8> = StripBytes::new().strip_next(&whole).collect::<Vec<_>>().concat();
+    let mut sb = StripBytes::new();
+    let mut got = vec![];
+    for c in &chunks {
+        for p in sb.strip_next(c) {
+            got.extend_from_slice(p);
+        }
+    }
+    let differs = |what: &str, a: &[u8], b: &[u8]| {
+        let at = a.iter().zip(b.iter()).position(|(x, y)| x != y).unwrap_or(a.len().min(b.len()));
+        format!("{what}: chunks of {size} bytes give {} bytes, one call gives {} bytes; first difference at output offset {at}", a.len(), b.len())
+    };
+    if got != one {
+        return Err(differs("StripBytes::strip_next", &got, &one));
+    }
+    let mut s1 = anstream::StripStream::new(Vec::new());
+    s1.write_all(&whole).map_err(|e| e.to_string())?;
+    let mut s2 = anstream::StripStream::new(Vec::new());
+    for c in &chunks {
+        s2.write_all(c).map_err(|e| e.to_string())?;
+    }
+    let (o1, o2) = (s1.into_inner(), s2.into_inner());
+    if o1 != o2 {
+        return Err(differs("StripStream::write_all per chunk", &o2, &o1));
+    }
+    if o1 != one {
+        return Err(differs("StripStream::write_all vs StripBytes (one call each)", &o1, &one));
+    }
+    let mut s3 = anstream::StripStream::new(Vec::new());
+    let mut rest = &whole[..];
+    while !rest.is_empty() {
+        let k = s3.write(&rest[..rest.len().min(size)]).map_err(|e| e.to_string())?;
+        if k == 0 {
+            return Err("StripStream::write returned Ok(0) for a non-empty buffer".into());
+        }
+        rest = &rest[k..];
+    }
+    let o3 = s3.into_inner();
+    if o3 != o1 {
+        return Err(differs("StripStream::write loop", &o3, &o1));
+    }
+    if let Ok(text) = std::str::from_utf8(&whole) {
+        let one_s: String = StripStr::new().strip_next(text).collect();
+        let mut st = StripStr::new();
+        let mut got_s = String::new();
+        let mut i = 0;
+        while i < text.len() {
+            let mut j = (i + size).min(text.len());
+            while !text.is_char_boundary(j) {
+                j += 1;
+            }
+            got_s.extend(st.strip_next(&text[i..j]));
+            i = j;
+        }
+        if got_s != one_s {
+            return Err(differs("StripStr::strip_next", got_s.as_bytes(), one_s.as_bytes()));
+        }
+        if one_s.as_bytes() != &one[..] {
+            return Err(differs("StripStr vs StripBytes (one call each)", one_s.as_bytes(), &one));
+        }
+    }
+    let one_runs = merge_real(WinconBytes::new().extract_next(&whole).collect());
+    let mut wb = WinconBytes::new();
+    let mut runs = vec![];
+    for c in &chunks {
+        runs.extend(wb.extract_next(c));
+    }
+    let runs = merge_real(runs);
+    if runs != one_runs {
+        let at = runs.iter().zip(one_runs.iter()).position(|(x, y)| x != y).unwrap_or(runs.len().min(one_runs.len()));
+        return Err(format!("WinconBytes::extract_next: chunks of {size} bytes give {} merged runs, one call gives {}; first difference at run {at}", runs.len(), one_runs.len()));
+    }
+    Ok(())
+}
+
+const MANY_UNITS: [&[u8]; 5] = [b"\x1b[1ma", b"\x1b[31m\xc3\xa9\x1b[0m ", b"a\x07", b"\x1b]0;t\x07b\x1b[m", b"x\x1bc"];
+const MANY_COUNTS: [usize; 16] = [15, 16, 17, 255, 256, 257, 1023, 1024, 1025, 1026, 2047, 2048, 2049, 2050, 4097, 10001];
+const MANY_SIZES: [usize; 5] = [1, 7, 1000, 4096, 8192];
+
 fn main_check(ctx: &Ctx) -> Outcome {
     let mut out = Outcome::default();
     let quick = ctx.quick();
@@ -450,6 +535,27 @@ fn main_check(ctx: &Ctx) -> Outcome {
         out.findings.extend(v);
         out.push_part(json!({"system":"every 2-byte chunk over 256 byte values: one chunk vs two (StripBytes from every class-reachable state, WinconBytes from every state after <= 2 class bytes)","pairs":pairs.len(),"strip_start_states":starts.len(),"wincon_start_states":wstarts.len()}));
     }
+    // (e) very many small items in one call vs the same input in chunks (batching by count: 16 / 256 / 1024 / 2048 /
+    //     4096 items per call)
+    {
+        let cases: Vec<(usize, usize, usize)> = (0..MANY_UNITS.len()).flat_map(|u| MANY_COUNTS.iter().flat_map(move |&n| MANY_SIZES.iter().map(move |&sz| (u, n, sz)))).collect();
+        let bad: Vec<Finding> = cases
+            .par_iter()
+            .filter_map(|&(u, n, sz)| {
+                if sz == 1 && n > 2050 {
+                    return None;
+                }
+                evals.fetch_add(1, Ordering::Relaxed);
+                let r = guard(|| many_items_case(MANY_UNITS[u], n, sz)).and_then(|r| r);
+                r.err().map(|m| Finding { system: "many small items: one call vs chunks".into(), clause: "chunking-differs".into(), case: vec![show(MANY_UNITS[u]), format!("x{n}"), format!("chunks of {sz}")], message: m, replay: json!({"kind":"many","unit":u,"n":n,"size":sz}) })
+            })
+            .collect();
+        let mut bad = bad;
+        bad.sort_by_key(|f| f.key());
+        bad.truncate(10);
+        out.findings.extend(bad);
+        out.push_part(json!({"system":"very many small items in one call vs chunks (StripBytes, StripStream write_all and write loop, StripStr, WinconBytes)","units":MANY_UNITS.iter().map(|u| show(u)).collect::<Vec<_>>(),"counts":MANY_COUNTS,"chunk_sizes":MANY_SIZES}));
+    }
     out.set("evaluations", json!(evals.load(Ordering::Relaxed)));
     out.set("distinct_nontrivial", json!(distinct.lock().unwrap().len()));
     out.set("rule", json!("evaluations = (input, partition) pairs of part (c); distinct_nontrivial = distinct one-shot outputs among the inputs"));
@@ -494,6 +600,7 @@ fn replay(v: &serde_json::Value) -> Result<(), String> {
             }
             Ok(())
         }
+        "many" => many_items_case(MANY_UNITS[v["unit"].as_u64().unwrap_or(0) as usize % MANY_UNITS.len()], v["n"].as_u64().unwrap_or(0) as usize, v["size"].as_u64().unwrap_or(1).max(1) as usize),
         "partitions" => {
             let toks: Vec<Vec<u8>> = v["tokens"].as_array().unwrap().iter().map(|x| unhex(x.as_str().unwrap())).collect();
             let whole: Vec<u8> = toks.concat();
